@@ -137,3 +137,12 @@ Proof.
   split; [|split; [vm_compute; reflexivity|intro H; discriminate H]].
   repeat split; repeat constructor; cbn; try (intros [H|H]; try discriminate H; try contradiction); try tauto; try discriminate.
 Qed.
+
+(* ---- ... and Writer.quote never raises on a balanced value (check_braces accepts it), so that for every
+   brace-balanced v there is a quoted text which the reader maps back to v in every parser state *)
+Theorem quote_read_roundtrip : forall v, balanced v ->
+  exists q, quote v = Ok q /\
+    forall m s tail, sc_rest (p_sc s) = q ++ tail ->
+      exists s', parse_value_part m s = Ret v s' /\ sc_rest (p_sc s') = tail /\ frame s' = frame s.
+Proof. exact quote_read_pf. Qed.
+Print Assumptions quote_read_roundtrip.
